@@ -122,6 +122,7 @@ fn canon(shape: &Shape, o: &Outcome) -> String {
         Outcome::Error { .. } => "error".to_string(),
         Outcome::Panic { loc, msg } => format!("panic:{loc}:{msg}"),
         Outcome::Hang { detail } => format!("hang:{detail}"),
+        Outcome::Abort { detail } => format!("abort:{detail}"),
     }
 }
 
@@ -253,6 +254,7 @@ pub fn explore(shape: &Shape, cfg: &ExploreCfg) -> ExploreResult {
                         match &obs.outcome {
                             Outcome::Panic { loc, msg } => viol = Some((crate::infra::panic_class(loc, msg), "no panic".into(), obs.outcome.brief())),
                             Outcome::Hang { detail } => viol = Some(("hang".into(), "terminates (no lost wake-up)".into(), detail.clone())),
+                            Outcome::Abort { detail } => viol = Some(("abort".into(), "no abort".into(), detail.clone())),
                             _ => {
                                 if obs.task_errors > 0 && !obs.outcome.is_error() {
                                     viol = Some(("error-lost".into(), "a task error reaches the client".into(), obs.outcome.brief()));
